@@ -26,11 +26,10 @@ func actionPath(fileSuffixes []string, dirOnly bool) Action {
 			return ActionMessage(err.Error())
 		}
 
-		displayFolder := filepath.ToSlash(filepath.Dir(c.Value))
-		if displayFolder == "." {
-			displayFolder = ""
-		} else if !strings.HasSuffix(displayFolder, "/") {
-			displayFolder = displayFolder + "/"
+		// the typed directory part, unchanged (filepath.Dir would normalise `a//`, `a/./`, `./`)
+		displayFolder := ""
+		if value := filepath.ToSlash(c.Value); strings.Contains(value, "/") {
+			displayFolder = value[:strings.LastIndex(value, "/")+1]
 		}
 
 		actualFolder := filepath.ToSlash(filepath.Dir(abs))
@@ -74,9 +73,6 @@ func actionPath(fileSuffixes []string, dirOnly bool) Action {
 					}
 				}
 			}
-		}
-		if strings.HasPrefix(c.Value, "./") {
-			return ActionStyledValues(vals...).Invoke(Context{}).Prefix("./").ToA()
 		}
 		return ActionStyledValues(vals...)
 	})
